@@ -39,28 +39,28 @@ CHECKS = {
     ),
     "C13": dict(
         category="fault_enumeration",
-        text="Generated third-party-style patches (and patches written by a816's own IPSWriter) stored on the simulated disk and read through CPython's real BufferedReader with seeded buffer size, short raw reads and pipe-like delivery; the directive is placed at every kind of assembled slot, with literal / symbol / macro-argument / reassigned deltas, included once or twice, through the in-memory API and through assemble_as_patch with and without the copier header. Storage damage (EOF at every offset of small patches, boundary offsets of large ones, dropped header, flipped bytes, lost/duplicated chunks), ENOENT and EIO on every raw read are enumerated per patch; the damaged bytes are classified independently by sim/ipsref.py.",
+        text="Generated third-party-style patches (and patches written by a816's own IPSWriter) stored on the simulated disk and read through CPython's real BufferedReader with seeded buffer size, short raw reads and pipe-like delivery; the directive is placed at every kind of assembled slot, with literal / symbol / macro-argument / reassigned deltas, included once or twice (also one directive in a macro body expanded twice with different deltas), named through plain, sub-directory, absolute, './', 'dir/../' and symlink-then-'..' paths, landing in a free zone or at the very start of the image, through the in-memory API and through assemble_as_patch with and without the copier header. Storage damage (EOF at every offset of small patches, boundary offsets of large ones, dropped header, flipped bytes, lost/duplicated chunks), ENOENT and EIO on every raw read are enumerated per patch; the damaged bytes are classified independently by sim/ipsref.py.",
         design_ref="DESIGN.md 3.1 C13",
         note="No accept/reject verdict for bytes after the EOF marker (the statement is silent); a missing EOF marker counts as not well-formed; record targets never overlap the host program's own output.",
         technique="deterministic simulation: stored-file damage enumeration + buffered-reader perturbation, reference IPS reader as oracle",
     ),
     "C14": dict(
         category="fault_enumeration",
-        text="For each generated base program: ~60 definite source-error classes at the statement slots where they are errors by construction, every I/O crash point (each raw open/read/write/close the fault-free run performed, per role, several errnos) of all five entry points, a failing user Writer at every block, a sample of failing executions repeated in the same process, and failing programs derived from the valid one by deleting a definition (given to an entry point alone or right after the valid original in the same process); the status that crosses the API/process boundary is compared with what was injected and with what reached the disk.",
+        text="For each generated base program: ~60 definite source-error classes at the statement slots where they are errors by construction, every I/O crash point (each raw open/read/write/close the fault-free run performed, per role, several errnos) of all five entry points, a failing user Writer at every block, a sample of failing executions repeated in the same process, and failing programs derived from the valid one by deleting a definition (given to an entry point alone or right after the valid original in the same process), plus every error class in fresh interpreters started with -O; the status that crosses the API/process boundary is compared with what was injected and with what reached the disk.",
         design_ref="DESIGN.md 3.1 C14",
         note="Exceptions count as failure reports; message text and the particular non-zero value are not judged; success announcements are recognised by the word 'success' on a log record below WARNING or on stdout.",
         technique="deterministic simulation: complete per-run enumeration of I/O crash points and error slots across entry points",
     ),
     "C15": dict(
         category="fault_enumeration",
-        text="Storage faults applied to the stored source, included files, table files and patch files of valid workloads (EOF at every byte offset of small files, lost/duplicated/swapped chunks, flipped and garbage bytes, NUL sectors, single-character edits inside strings), plus seeded token soup and structured stress workloads, with the assembler run under a deterministic interpreter-step clock; a run that exceeds a budget three orders of magnitude above the fault-free run (or, for loops inside C code, a CPU-time limit) is a replayable non-termination; locks, condition waits and sleeps go through a blocking seam, so a single-threaded self-deadlock is reported as 'blocks forever' instead of hanging the harness.",
+        text="Storage faults applied to the stored source, included files, table files and patch files of valid workloads (EOF at every byte offset of small files, lost/duplicated/swapped chunks, flipped and garbage bytes, NUL sectors, single-character edits inside strings), plus seeded token soup and structured stress workloads, with the assembler run under a deterministic interpreter-step clock; a run that exceeds a budget three orders of magnitude above the fault-free run (or, for loops inside C code, a CPU-time limit) is a replayable non-termination; locks, condition waits and sleeps go through a blocking seam, so a single-threaded self-deadlock is reported as 'blocks forever' instead of hanging the harness; terminal size and selected environment variables are decided per execution by the simulator.",
         design_ref="DESIGN.md 3.1 C15",
         note="Exhaustive enumeration of all short token sequences is model checking and is not attempted; loops inside C code (regular expressions) execute no interpreter step and are judged by a CPU-time limit on the child instead of the step clock; explicit loop counts above 64 give no verdict.",
         technique="deterministic simulation: torn/damaged source enumeration under a deterministic step clock",
     ),
     "C19": dict(
         category="exploration",
-        text="Seeded histories of assemblies (valid, failing at injected crash points, custom .map, other ROM types, CLI runs in sub-directories, the probe's own text under other layouts / defines, torn sources, long sources, file rewrites) executed in one process - working directory and interpreter settings included - before a probe; the probe's result is compared with the same probe alone in a pristine fork and repeated immediately; a sample of these, and systematically every error class and a set of misspelt directives as failing probes, is cross-checked in fresh interpreters under other PYTHONHASHSEED values; half of the failing probes are preceded by a history program that fails the same way.",
+        text="Seeded histories of assemblies (valid, failing at injected crash points, custom .map, other ROM types, CLI runs in sub-directories, the caller changing into other project directories, the probe's own text under other layouts / defines, torn sources, long sources, file rewrites) executed in one process - working directory and interpreter settings included - before a probe; the probe's result is compared with the same probe alone in a pristine fork and repeated immediately; a sample of these, and systematically every error class and a set of misspelt directives as failing probes, is cross-checked in fresh interpreters under other PYTHONHASHSEED values; half of the failing probes are preceded by a history program that fails the same way.",
         design_ref="DESIGN.md 3.1 C19",
         note="Only public observation points are compared (return/exception, blocks, labels, output files); threads are out of scope; reuse of one Program object is not promised by the statement.",
         technique="deterministic simulation: seeded operation histories with crash injection, pristine-process reference",
